@@ -467,3 +467,7 @@ def _ghost_rt(*a):
 fs_kind = fs_content = fs0_kind = fs0_content = net_calls = net_calls0 = sha = good = good_data = data_of = unpickle = path_join = _ghost_rt
 
 file_pos = file_content = hash_acc = strlen = strcat = substr = _ghost_rt
+
+
+def ident(t):
+    return t
